@@ -405,4 +405,12 @@ def replay(path):
 
 
 if __name__ == '__main__':
-    sys.exit(main())
+    try:
+        rc = main()
+    except SystemExit:
+        raise
+    except BaseException as e:      # noqa  (a crash of the checker is never a violation)
+        print(f"CHECKER-ERROR: {type(e).__name__}: {e}")
+        traceback.print_exc()
+        rc = 3
+    sys.exit(rc)
